@@ -6,7 +6,7 @@ import numpy as np
 from . import terms as tm, modes
 
 VERIF = os.path.dirname(os.path.dirname(os.path.abspath(__file__)))
-EVID = os.path.join(VERIF, 'evidence')
+EVID = os.environ.get('PHQV_EVIDENCE_DIR') or os.path.join(VERIF, 'evidence')   # the override is for runs against seeded changes only
 REPLAYS = os.path.join(VERIF, 'replays')
 KNOWN = os.path.join(VERIF, 'known_findings.txt')
 
